@@ -1,5 +1,45 @@
-(* C01 -- placeholder while the proofs are being written (replaced below). *)
-From KS Require Import lib.Base model.Storage.
+(* C01 -- Acknowledged produce is durable in S3.
+   Statements over model/Storage.v, which models the write path WITH the proposed
+   fixes C01-requeue-failed-flush, C02-reject-negative-last-offset-delta and
+   C05-empty-flush-publishes-committed applied. A run is any [list event]: every
+   interleaving of producers (any number of thread ids), every outcome of each
+   segment/index upload and store update, crashes and restarts at any step.
+   Only statements closed by [exact]; proofs are in proofs/StorageProofs.v. *)
+From KS Require Import lib.Base model.Storage proofs.StorageProofs.
 Open Scope Z_scope.
-Example C01_nonvacuous : run (init (mkCfg 0 0 0 1)) [] <> None.
-Proof. vm_compute. discriminate. Qed.
+
+(* (1) at every point of every run, every batch for which a success response has been
+       sent sits in an S3 segment object whose index object exists. *)
+Theorem C01_acked_durable : forall c evs s,
+  run (init c) evs = Some s -> forall b, In b (s_acked s) -> durable s b.
+Proof. exact acked_durable. Qed.
+Print Assumptions C01_acked_durable.
+
+(* (2) ... and it stays there: whatever was acknowledged at some point is durable in
+       every later state, across crashes, failed restores and restarts. *)
+Theorem C01_survives_restart : forall c evs1 evs2 s1 s,
+  run (init c) evs1 = Some s1 -> run s1 evs2 = Some s ->
+  forall b, In b (s_acked s1) -> durable s b.
+Proof. exact acked_survives. Qed.
+Print Assumptions C01_survives_restart.
+
+(* (3) the invariant behind (1),(2): acknowledged batches lie in complete objects
+       strictly below the write frontier, where no upload can overwrite them. *)
+Theorem C01_invariant : forall c evs s, run (init c) evs = Some s -> Inv s.
+Proof. exact reach_inv. Qed.
+Print Assumptions C01_invariant.
+
+(* non-vacuity: the schedule that loses an acknowledged batch on the unfixed code
+   (B drains A's batch, B's segment upload fails while A waits in Flush) ends, on the
+   fixed model, with A re-flushing both batches, A acknowledged and durable. *)
+Example C01_nonvacuous :
+  let r1 := hdr61 49 0 1 ++ [1] in let r2 := hdr61 49 0 1 ++ [2] in
+  let evs := [EAppend 0%nat r1; EAppend 1%nat r2; EFlushBegin 1%nat; EUpSeg 1%nat false; EUpIdx 1%nat true;
+              EFailReset 1%nat; EFlushBegin 0%nat; ERespond 1%nat; EUpSeg 0%nat true; EUpIdx 0%nat true;
+              ECommit 0%nat; ECallback 0%nat true; ERespond 0%nat; ECrash; ERestart true] in
+  match run (init (mkCfg 0 0 0 1)) evs with
+  | Some s => map b_base (s_acked s) = [0] /\ forallb (durableb s) (s_acked s) = true /\
+              s_next s = 2 /\ s_store s = 2 /\ s_live s = true
+  | None => False
+  end.
+Proof. vm_compute. repeat split. Qed.
